@@ -1238,8 +1238,20 @@ func oracle(c core.Case, out []string) []core.Finding {
 			curLhc = newLhc
 		case "bootstrap":
 			if strings.HasPrefix(o, "ok base=") {
-				curLhc, taintFrom, taintTo = 0, 0, 0
 				b, _ := strconv.ParseInt(strings.TrimPrefix(o, "ok base="), 10, 64)
+				if taintFrom > 0 && (taintTo == 0 || b < taintTo) && b+2 >= taintFrom {
+					// the state being bootstrapped was rebuilt by a Rollback that read its sets through the
+					// damaged records: the sets Bootstrap writes for heights b..b+2 are still the known
+					// finding's, in a fresh store (seen in the thorough tier: rollback, blocks, rollback,
+					// bootstrap, load)
+					if taintFrom < b {
+						taintFrom = b
+					}
+					taintTo = b + 3
+					curLhc = 0
+				} else {
+					curLhc, taintFrom, taintTo = 0, 0, 0
+				}
 				base = b // the fresh store holds height-1 .. height+1 of the bootstrapped state
 			}
 		case "genesis", "handshake":
